@@ -7,7 +7,9 @@
          input  = start r | prop h r from vr val | pv h r from id | pc h r from id | to k h r
      audit      -> "<disciplined 0/1> <failure codes csv|-> <no_double_vote 0/1>"   (on the implementation's events)
      fq <hex N> -> "<hex f> <hex q>"
-     agree h:id,h:id,...  -> "0/1" *)
+     agree h:id,h:id,...  -> "0/1"
+     dump <probe ids csv, "nil" = nil id>  -> canonical text of the model's whole state (consensus variables, vote counter
+         with every ballot, future-height buffer) and countVote of every round of the current height for the probe ids *)
 let ni s = n_of_int (int_of_string s)
 let zi s = z_of_int (int_of_string s)
 let sn x = string_of_int (int_of_n x)
@@ -83,6 +85,37 @@ let mk_cfg self h0 m invalid values dflt (blocks : block array) : cfg =
     c_vid = (fun v -> if m = 0 then v else n_of_int (int_of_n v mod m));
     c_value_at = (fun k -> n_of_int values.(int_of_n k mod Array.length values)) }
 
+
+(* ---------- canonical dump of the model's whole state (compared with the implementation's, read through
+   the verif hooks tendermint.VerifInspect / VoteCounter.VerifDump, after every call) ---------- *)
+let hx = hex_of_n
+let b01 b = if b then "1" else "0"
+let sbal (b : bset) : string =
+  let l = List.sort compare (List.map (fun (a, (p, c)) -> (int_of_n a, p, c)) b.b_bal) in
+  hx b.b_pv ^ "/" ^ hx b.b_pc ^ "/" ^ hx b.b_tot ^ "[" ^
+  String.concat "," (List.map (fun (a, p, c) -> string_of_int a ^ ":" ^ b01 p ^ b01 c) l) ^ "]"
+let srd (rd : rdata) : string =
+  let ids = List.sort (fun (a, _) (b, _) -> compare a b) (List.map (fun (i, b) -> (int_of_n i, b)) rd.r_ids) in
+  "{" ^ (match rd.r_prop with None -> "nil" | Some p -> sprop p) ^ "|" ^ hx rd.r_unc ^ "|" ^
+  String.concat ";" (List.map (fun (i, b) -> string_of_int i ^ "=" ^ sbal b) ids) ^ "|" ^
+  sbal rd.r_nil ^ "|" ^ sbal rd.r_all ^ "}"
+let sorted_rounds (m : rmap) = List.sort (fun (a, _) (b, _) -> compare a b) (List.map (fun (r, d) -> (int_of_z r, d)) m)
+let srm (m : rmap) : string =
+  String.concat " " (List.map (fun (r, d) -> "R" ^ string_of_int r ^ srd d) (sorted_rounds m))
+let sov = function None -> "-" | Some v -> sn v
+let dump_state (c : cfg) (s : state) (probe : n option list) : string =
+  let vc = s.s_vc in
+  let fut = List.sort (fun (a, _) (b, _) -> compare a b) (List.map (fun (h, m) -> (int_of_n h, m)) vc.vc_future) in
+  let cnt = List.concat_map (fun (r, d) ->
+    List.map (fun id -> "C" ^ string_of_int r ^ ":" ^ soid id ^ "=" ^ hx (r_count_vote d Prevote id) ^ "/" ^
+                         hx (r_count_vote d Precommit id)) probe) (sorted_rounds vc.vc_rounds) in
+  String.concat " " [ "S"; sn s.s_h; sz s.s_r; sphase s.s_step; sov s.s_lv; sz s.s_lr; sov s.s_vv; sz s.s_vr;
+    b01 s.s_tpv; b01 s.s_tpc; b01 s.s_lvs; b01 s.s_started; sn s.s_lts; sn s.s_lq; sn s.s_nval ] ^
+  " # VC " ^ sn vc.vc_h ^ " t=" ^ hx (c.c_total vc.vc_h) ^ " f=" ^ hx (vc_faulty c vc) ^ " q=" ^ hx (vc_quorum c vc) ^
+  " " ^ srm vc.vc_rounds ^
+  " # " ^ String.concat " " (List.map (fun (h, m) -> "F" ^ string_of_int h ^ "(" ^ srm m ^ ")") fut) ^
+  " # " ^ String.concat " " cnt
+
 let cfg_ref : cfg option ref = ref None
 let st_ref : state option ref = ref None
 let h0_ref = ref 0
@@ -119,6 +152,9 @@ let () =
         print_endline ((if ex then "1 " else "0 ") ^ sn s'.s_h ^ " " ^
                        (if acts = [] then "-" else String.concat " " (List.map show_action acts)));
         flush stdout
+    | ["dump"; ids] ->
+        let c = Option.get !cfg_ref and s = Option.get !st_ref in
+        print_endline (dump_state c s (List.map (fun x -> if x = "nil" then None else Some (ni x)) (csv ids))); flush stdout
     | ["audit"] ->
         let c = Option.get !cfg_ref in
         let e = List.rev !evs in
